@@ -148,8 +148,10 @@ def run(ctx):
         'styles (peaky, near-uniform, exact ties resolved to the first maximiser) and for batches of 2-3 lines with different content, '
         'greedy_decode_ctc, PytorchEngineLineOCR.run_ocr (stub network returning the tensor) and GreedyDecoder(...).best_hyp() all equal '
         'the CTC collapse of the arg-max path mapped through the character table. The decoders read the scores only through arg-max, so '
-        'the enumeration covers all score values at these shapes under A3 (arg-max semantics of numpy/torch).  The stand-alone GreedyDecoder '
-        '(itertools.groupby) and the agreement of the two decoders are bounded only.')
+        'the enumeration covers all score values at these shapes under A3 (arg-max semantics of numpy/torch).  PROVED as well: the stand-alone '
+        'GreedyDecoder.__call__ joins the symbols of exactly the frames that survive the collapse of logits.argmax(axis=1), in frame order '
+        '(itertools.groupby and the filtered generator modelled as order-preserving filters that track source frames).  The agreement of the two '
+        'decoders is bounded only.')
     from pyvc import run as vrun
     from contracts import greedy as GC
     core.setup_repo_path()
